@@ -170,11 +170,12 @@ def r08_e(prog: Program, chk: Check) -> None:
         raise AnchorError("check_call_with_bound_args: is_overload= not passed to _check_param_type_compatibility")
     e = kw(calls[0], "is_overload")
     restricts = [x for x in ast.walk(e) if isinstance(x, ast.Call) and last_attr(x) == "isinstance" and len(x.args) == 2 and norm(x.args[0]) == "position"]
-    ok = True
+    # the classes admitted by the isinstance tests of the gate, however they are spelled
+    # (`isinstance(p, (int, str))`, `isinstance(p, int) or isinstance(p, str)`)
+    admitted: Set[str] = set()
     for r in restricts:
-        types = {norm(t) for t in (r.args[1].elts if isinstance(r.args[1], ast.Tuple) else [r.args[1]])}
-        if not {"int", "str"} <= types:
-            ok = False
+        admitted |= {norm(t) for t in (r.args[1].elts if isinstance(r.args[1], ast.Tuple) else [r.args[1]])}
+    ok = not restricts or {"int", "str"} <= admitted
     chk.ob("R08.e", "signature::Signature.check_call_with_bound_args::decomposition-guard", ok, site, f"`is_overload={norm(e)}` switches union decomposition off for keyword (str) or positional (int) arguments")
     arms = {norm(n.test) for n in walk_no_nested(fn) if isinstance(n, ast.If) and "isinstance(position" in norm(n.test)}
     chk.ob("R08.e", "signature::Signature.check_call_with_bound_args::both-rebuild-arms", "isinstance(position, int)" in arms and "isinstance(position, str)" in arms, site, "the remaining union members must be written back for positional and for keyword arguments")
